@@ -16,7 +16,10 @@ from openjd.model import (  # noqa: E402
 _SRC_CHARS = "".join(sorted({c for c in Path(G.__file__).read_text() if ord(c) > 127}))
 
 VALUE_POOL = ["5", "-3", "0", "007", " 5 ", "1_0", "+4", "1.5", "2.0", "1e2", ".5", "-0", "NaN", "nan", "sNaN", "Infinity", "-inf", "abc", "", "x y", "1-3", "3,4", "{{Param.I}}",
-              "12345678901234567890", "é", "9" * 30, "a" * 300, "b" * 1024, "c" * 1025]
+              "12345678901234567890", "é", "9" * 30, "a" * 300, "b" * 1024, "c" * 1025,
+              # longer than CPython's int() will read (4300 digits) — in digits, or only in blanks around a short number:
+              # whatever a fallback makes of them, an INT value must still be an integer numeral
+              "1" + "0" * 4400, "1" + "0" * 4400 + ".0", "1" + "0" * 4310 + "E-1", " " * 4400 + "5.0", "5e0" + " " * 4400, " " * 4400 + "5", "-" + "7" * 4301]
 
 
 def template(rng):
